@@ -27,6 +27,7 @@ CLAIMED = {
  "C16": "Invariant Caps (<=32 frames, <=32 loops with distinct variables, cell count = product <= 10000, name-suffix typing of variables, cells and parameters) checked by TLC on MC_C01 and on cap-driving kernels (GOSUB and function recursion to 33, 34 FOR variables, FOR re-entered by GOTO 40 times, DIM at 10000/10001 cells, implicit arrays of 1-5 dimensions, every write path with the wrong kind); the same invariants are monitors on every snapshot of every recorded trace.",
  "C17": "One-step lemma FlagsDoNotInterfere checked by TLC at every reachable state of the kernel schedules with both flags on; trace and warning records (kind, line) predicted by the model and compared on replay; differential driver: each generated program under the four flag configurations, outputs minus trace/warning records and final state compared.",
  "C18": "Rng.tla on limb naturals; MC_Rng explores all argument-sign sequences from 17 boundary seeds with invariants InRange and Pure (against an independently coded LCG); Apalache proves the range invariant inductive over unbounded integers; every transition replayed through the hook, PRINT RND on the core and on the Web adapter; RND calls from boundary and random 64-bit seeds judged by TLC.",
+ "C19": "Web.tla models the adapter (error latch asserted empty on entry, interpreter swap on NEW, get_state's panic arm) and the page script's four handlers with the timer tick as an independently enabled action; the protocol is parameterised by facts extracted from main.ts; MC_Web explores every event sequence (load, submit, break, tick) to the tier's length with invariants NoTrap / NewIsFresh; every transition is replayed on the real JsInterpreter (built natively) through a transliteration of the handlers, beside a plain core interpreter; random page sessions are judged by TLC.",
 }
 ENGINE = "tlc+vh"
 checks = []
